@@ -95,7 +95,7 @@ def pushat_pos(kind, n, i):
     return j if 0 <= j < n else -1
 
 
-def random_history(rng, kind, nvals, nops, zero_tok=0, two=True, maxlen=40, bad=None, cross=True, p_out=0.06, fromit=False):
+def random_history(rng, kind, nvals, nops, zero_tok=0, two=True, maxlen=40, bad=None, cross=True, p_out=0.06, fromit=False, xassign=True, selfpush=True):
     """random history over up to 3 sequences.  The generator tracks the abstract contents only to choose
     interesting arguments (mostly valid indices, present and absent values); verdicts come from TLC."""
     L = ["reset"]
@@ -152,6 +152,15 @@ def random_history(rng, kind, nvals, nops, zero_tok=0, two=True, maxlen=40, bad=
                 v = rng.choice(q)
             L.append("rem %d %d" % (o, v))
             if v in q: q.remove(v)
+        elif r < 0.768 and selfpush and kd != "Tuple" and 0 < n < maxlen:
+            i = rng.randrange(n)
+            if rng.random() < 0.5:
+                L.append("pushself %d %d" % (o, i)); q.append(q[i])
+            else:
+                at = rng.randrange(0, n + (1 if kd == "Array" else 0))
+                L.append("pushself %d %d %d" % (o, i, at)); q.insert(at, q[i])
+        elif r < 0.772 and xassign:
+            L.append("xassign %d%s" % (o, "".join(" %d" % rng.randint(1, nvals) for _ in range(rng.choice([0, 1, 3, 5])))))
         elif r < 0.775 and fromit and n < maxlen:
             # operand of another iterable kind (distinct tokens: Tree / Table keys)
             toks = rng.sample(range(1, nvals + 1), rng.randint(0, min(4, nvals)))
